@@ -173,7 +173,12 @@ def run_links(m: Dict[str, Any], sp: Dict[str, Any]) -> Tuple[List[Tuple[str, st
     try:
         db = parse_real(text, m['allow_properties'])
     except Exception as e:
-        return [(f'rejected:{type(e).__name__}', f'{type(e).__name__}: {str(e)[:200]}')], text
+        # no database is returned: only a failure to *resolve* a valid mention is C05's business (acceptance of
+        # well-formed documents is C01's)
+        name = type(e).__name__
+        if name in ('TableNotFoundError', 'ColumnNotFoundError'):
+            return [(f'unresolved:{name}', f'{name}: {str(e)[:200]}')], text
+        return [('__rejected__', f'{name}: {str(e)[:200]}')], text
     try:
         return link_failures(db, m), text
     except Exception as e:       # malformed graph makes the clause evaluation itself fail
@@ -184,7 +189,7 @@ def _reduced(m, sp, key: str) -> Tuple[Dict[str, Any], str]:
     def test(m2):
         fs, _t = run_links(m2, sp)
         return any(k == key for k, _m in fs)
-    m_min = minimize_model(m, test, time.time() + 0.8, fine=True)
+    m_min = minimize_model(m, test, 150, fine=True)
     return m_min, surface(m_min, sp)
 
 
@@ -240,7 +245,7 @@ class Links(BObl):
             '(exhaustive): `Table a as b`, `Table b` in public or s1, one schema-qualified mention of b as ref '
             'endpoint left/right/both/inline target/group item x ref kind x short/block form x declaration order x '
             'column present in both tables or only in b.  Every clause of the statement is evaluated with `is`.')
-    bound = 'quick 900 random documents (<=4 tables) + 128 shadow documents; thorough 20000 + 128'
+    bound = 'quick 900 random documents (<=4 tables) + 188 shadow documents; thorough 20000 + 188'
     budget = {'quick': 20.0, 'thorough': 200.0}
     chunk = 16
 
@@ -272,13 +277,14 @@ class Links(BObl):
     def check(self, recipe):
         m, sp = self._build(recipe)
         fails, text = run_links(m, sp)
+        fails = [f for f in fails if f[0] != '__rejected__']
         if not fails:
             return None
         if recipe['family'] == 'shadow':
             # any wrong resolution of the schema-qualified mention is the shadowing defect
             k0, msg0 = fails[0]
-            resolution = ('endpoint-wrong-table', 'group-item-not-table', 'rejected:ColumnNotFoundError',
-                          'rejected:TableNotFoundError', 'inline-not-declaring-column', 'get-refs', 'sql-holder')
+            resolution = ('endpoint-wrong-table', 'group-item-not-table', 'unresolved:ColumnNotFoundError',
+                          'unresolved:TableNotFoundError', 'inline-not-declaring-column', 'get-refs', 'sql-holder')
             if k0 in resolution:
                 key = 'alias-shadows-name'
             else:
